@@ -162,6 +162,10 @@ func (m *SubscribeMessage) Decode(src []byte) (int, error) {
 		return total, err
 	}
 
+	if m.remlen < 2 {
+		return total, fmt.Errorf("subscribe/Decode: Insufficient remaining length for the packet ID")
+	}
+
 	//this.packetId = binary.BigEndian.Uint16(src[total:])
 	m.packetID = src[total : total+2]
 	total += 2
@@ -172,6 +176,10 @@ func (m *SubscribeMessage) Decode(src []byte) (int, error) {
 		total += n
 		if err != nil {
 			return total, err
+		}
+
+		if n+1 > remlen {
+			return total, fmt.Errorf("subscribe/Decode: Topic filter and QoS exceed the remaining length")
 		}
 
 		m.topics = append(m.topics, t)
